@@ -1,5 +1,6 @@
 import Obao.Proofs.PKIRevokeNum
 import Obao.Proofs.PKIRevokeConc
+import Obao.Model.PKIReport
 /-! C16 — a revoked certificate is reported revoked everywhere until it expires.
 Model: `Obao/Model/PKIRevoke.lean` (requests as programs of storage writes; `Run.cut = some j` = a storage
 failure or crash after `j` writes; `Run.o1/o2` = the runtime's order of per-issuer CRL writes).  Histories are
@@ -409,5 +410,60 @@ cut right after the CRL write; the next rotate continues with fresh numbers -/
 example : ((run init [⟨.addIssuer, [1], [1], none⟩, ⟨.rotate, [1], [1], some 1⟩, ⟨.rotate, [1], [1], some 2⟩,
       ⟨.rotate, [1], [1], none⟩]).log.map fun e => (e.issuer, e.number)) = [(1, 6), (1, 5), (1, 4), (1, 2), (1, 1)] := by
   decide
+
+/-! ### report channels after a retry (issuer certificates, `config/crl`) — stream `pkiscen` -/
+
+open Obao.PKIReport in
+/-- **Revocation of an issuer certificate: whichever write fails, a successful call or a successful retry leaves every
+report channel showing it revoked.** For every position `k` of a failing write (`0` = none, beyond the last = none) of
+`issuer/<ref>/revoke`: if the call succeeds, the `revoked/` entry exists and the served CRL was built after it; if it
+fails, the fault-free retry succeeds and leaves the same. -/
+theorem issuer_revoke_reported_after_retry (k : Nat) :
+    let r1 := issuerRevoke {} k
+    (r1.2 = true → r1.1.entry = true ∧ r1.1.crl = true) ∧
+    (r1.2 = false → (issuerRevoke r1.1 0).2 = true ∧ (issuerRevoke r1.1 0).1.entry = true ∧ (issuerRevoke r1.1 0).1.crl = true) := by
+  rcases k with _ | _ | _ | _ | k
+  · decide
+  · decide
+  · decide
+  · decide
+  · have h1 : ¬ (1 = k + 1 + 1 + 1 + 1) := by omega
+    have h2 : ¬ (2 = k + 1 + 1 + 1 + 1) := by omega
+    have h3 : ¬ (3 = k + 1 + 1 + 1 + 1) := by omega
+    simp [issuerRevoke, Obao.PKIReport.run, S.apply, h1, h2, h3]
+
+open Obao.PKIReport in
+/-- **Finding F69 (repaired)**: with the "already revoked" shortcut a retry after a failure of the second write answers
+success although the `revoked/` entry was never written and the CRL never rebuilt. -/
+theorem issuer_revoke_shortcut_cex :
+    (issuerRevokeShortcut {} 2).2 = false ∧
+    (issuerRevokeShortcut (issuerRevokeShortcut {} 2).1 0).2 = true ∧
+    (issuerRevokeShortcut (issuerRevokeShortcut {} 2).1 0).1.entry = false ∧
+    (issuerRevokeShortcut (issuerRevokeShortcut {} 2).1 0).1.crl = false := by decide
+
+open Obao.PKIReport in
+/-- **`config/crl`: once the switch to a state that needs a current CRL has been reported successful — at the first
+attempt or at a retry after any failing write — the served CRL lists every serial whose revocation was reported
+before.** -/
+theorem config_crl_current_after_retry (k : Nat) :
+    let s0 : S := { entry := true }
+    let r1 := configCRL s0 k
+    (r1.2 = true → r1.1.crl = true) ∧ (r1.2 = false → (configCRL r1.1 0).2 = true ∧ (configCRL r1.1 0).1.crl = true) := by
+  rcases k with _ | _ | _ | k
+  · decide
+  · decide
+  · decide
+  · have h1 : ¬ (1 = k + 1 + 1 + 1) := by omega
+    have h2 : ¬ (2 = k + 1 + 1 + 1) := by omega
+    simp [configCRL, Obao.PKIReport.run, S.apply, h1, h2]
+
+open Obao.PKIReport in
+/-- **Finding F70 (repaired)**: deciding the rebuild by the STORED configuration, the retry after a failed rebuild finds
+the configuration already switched, skips the rebuild and answers success with a stale CRL. -/
+theorem config_crl_stored_diff_cex :
+    let s0 : S := { entry := true }
+    (configCRLStoredDiff s0 2).2 = false ∧
+    (configCRLStoredDiff (configCRLStoredDiff s0 2).1 0).2 = true ∧
+    (configCRLStoredDiff (configCRLStoredDiff s0 2).1 0).1.crl = false := by decide
 
 end C16
